@@ -73,3 +73,12 @@ Properties/C07.vos Properties/C07.vok Properties/C07.required_vos: Properties/C0
 Properties/C08.vo Properties/C08.glob Properties/C08.v.beautified Properties/C08.required_vo: Properties/C08.v Base.vo Prim.vo
 Properties/C08.vio: Properties/C08.v Base.vio Prim.vio
 Properties/C08.vos Properties/C08.vok Properties/C08.required_vos: Properties/C08.v Base.vos Prim.vos
+Model/RadixOut.vo Model/RadixOut.glob Model/RadixOut.v.beautified Model/RadixOut.required_vo: Model/RadixOut.v Base.vo Prim.vo Model/Digit.vo Model/Core.vo Model/Shift.vo Model/AddSub.vo Model/Mul.vo Model/Div.vo Model/Bits.vo
+Model/RadixOut.vio: Model/RadixOut.v Base.vio Prim.vio Model/Digit.vio Model/Core.vio Model/Shift.vio Model/AddSub.vio Model/Mul.vio Model/Div.vio Model/Bits.vio
+Model/RadixOut.vos Model/RadixOut.vok Model/RadixOut.required_vos: Model/RadixOut.v Base.vos Prim.vos Model/Digit.vos Model/Core.vos Model/Shift.vos Model/AddSub.vos Model/Mul.vos Model/Div.vos Model/Bits.vos
+Run/RunC11.vo Run/RunC11.glob Run/RunC11.v.beautified Run/RunC11.required_vo: Run/RunC11.v Base.vo Prim.vo Model/Core.vo Model/Shift.vo Model/AddSub.vo Model/Mul.vo Model/Div.vo Model/Bits.vo Model/RadixOut.vo Run/RunBase.vo
+Run/RunC11.vio: Run/RunC11.v Base.vio Prim.vio Model/Core.vio Model/Shift.vio Model/AddSub.vio Model/Mul.vio Model/Div.vio Model/Bits.vio Model/RadixOut.vio Run/RunBase.vio
+Run/RunC11.vos Run/RunC11.vok Run/RunC11.required_vos: Run/RunC11.v Base.vos Prim.vos Model/Core.vos Model/Shift.vos Model/AddSub.vos Model/Mul.vos Model/Div.vos Model/Bits.vos Model/RadixOut.vos Run/RunBase.vos
+Properties/C11.vo Properties/C11.glob Properties/C11.v.beautified Properties/C11.required_vo: Properties/C11.v Base.vo Prim.vo
+Properties/C11.vio: Properties/C11.v Base.vio Prim.vio
+Properties/C11.vos Properties/C11.vok Properties/C11.required_vos: Properties/C11.v Base.vos Prim.vos
